@@ -660,6 +660,10 @@ CREDENTIALS = {
     'swapped': (HOOK_PWD, HOOK_LOGIN),
     'empty': ('', ''),
     'right': (HOOK_LOGIN, HOOK_PWD),
+    # same concatenation, boundary moved
+    'shifted_boundary': (HOOK_LOGIN[:-1], HOOK_LOGIN[-1:] + HOOK_PWD),
+    'all_in_password': ('', HOOK_LOGIN + HOOK_PWD),
+    'all_in_login': (HOOK_LOGIN + HOOK_PWD, ''),
     'bearer': 'Bearer ' + HOOK_PWD,
     'garbage_basic': 'Basic !!!notbase64!!!',
 }
